@@ -20,7 +20,11 @@ def c03(tier, seed):
     obs, cmd, prep = units_path.run_spec(spec, timeout=3000 if tier == "quick" else 7200)
     vo, vcmd, vlog, _ = units_verus.run_unit("bf_alloc")
     obs += vo
-    cmd = cmd + " ; " + vcmd
+    lo, lcmd, llog, _ = units_verus.run_unit("layout")
+    obs += units_verus.select(lo, r"::(pad_to_bitfield_unit|saw_bitfield_unit|padding_field|bitfield_unit)::", None, keep_meta=False)
+    po, pcmd, plog, _ = units_verus.run_unit("packed")
+    obs += units_verus.select(po, r"::CompInfo::is_packed::", None, keep_meta=False)
+    cmd = cmd + " ; " + vcmd + " ; " + lcmd + " ; " + pcmd
     prep = dict(prep, bf_alloc_unit=[dict(l, unit="bf_alloc") for l in vlog])
     meta = {
         "checker_cmd": cmd,
@@ -33,11 +37,13 @@ def c03(tier, seed):
         ],
         "functions_under_contract": [
             "bindgen/codegen/bitfield_unit.rs: get, set, raw_get, raw_set, get_bit, set_bit, raw_get_bit, raw_set_bit, extract_bit, change_bit (via callers), get_const, set_const, raw_get_const, raw_set_const",
-            "bindgen/ir/comp.rs: bitfields_to_allocation_units (+ nested flush_allocation_unit) in the mode where libclang gives no field offsets (class templates): every emitted bit-field satisfies the ABI placement rule, fields keep their order without overlap, and offset_into_unit + width <= 8 * unit size = the accessors' precondition",
+            "bindgen/ir/comp.rs: bitfields_to_allocation_units (+ nested flush_allocation_unit), three contracts: (1) no clang offsets (class templates): every emitted bit-field satisfies the ABI placement rule, fields keep their order without overlap, offset_into_unit + width <= 8 * unit size; (2) clang offsets, every field ends at or after the earlier ones (structs): offset_into_unit + width <= 8 * unit size; (3) clang offsets otherwise (unions): witness of known finding F7",
+            "bindgen/ir/comp.rs: CompInfo::is_packed (whether bit-fields are allocated with packed rules; callback iteration desugared by rule R16)",
+            "bindgen/codegen/struct_layout.rs: StructLayoutTracker::pad_to_bitfield_unit, saw_bitfield_unit (unit layout; the unit lands at the clang offset of its first bit-field)",
         ],
         "extraction": [prep],
         "assumptions": [
-            "preconditions = the functions' own debug_assert!s (bit_width<=64, bit_offset/8 < len, (off+w+7)/8 <= len); bitfields_to_allocation_units is proved to establish offset+width <= 8*size in the no-clang-offset mode; in the clang-offset mode (plain C structs) it relies on libclang's offsets being increasing and already ABI-placed (unverified)",
+            "preconditions = the functions' own debug_assert!s (bit_width<=64, bit_offset/8 < len, (off+w+7)/8 <= len); bitfields_to_allocation_units is proved to establish offset+width <= 8*size in the no-clang-offset mode; in the clang-offset mode it is proved for non-decreasing offsets that are already ABI-placed (assumed of libclang) when every field ends at or after the earlier ones; the complement (unions) is known finding F7",
             "region split: contracts are claimed on (bit_offset%8)+bit_width <= 64; the complement is known finding F1 (witness harnesses)",
             "complete for N in the listed set: all inputs kani::any(); loops bounded by operand width (<=9 iterations) with unwinding assertions on (unwind 18)",
             "storage sizes checked this run: N in %r (quick: subset; thorough: 1..=16); units longer than 16 bytes are not covered" % ns,
@@ -149,7 +155,7 @@ def c02(tier, seed):
         "trusted_base": LAYOUT_TRUST,
         "functions_under_contract": LAYOUT_FNS + [
             "bindgen/codegen/helpers.rs: ast_ty::int_kind_rust_type, ast_ty::float_kind_rust_type (unit prim_types: fixed-width kinds get a Rust integer of the same width and sign; platform kinds the std::os::raw alias documented as equivalent; wchar_t / long double / __float128 a type of exactly the C size)",
-            "bindgen/ir/comp.rs: CompInfo::already_packed (unit packed: Some(true) exactly when dropping `packed` moves no field)"],
+            "bindgen/ir/comp.rs: CompInfo::already_packed (unit packed: Some(true) exactly when dropping `packed` moves no field), CompInfo::is_packed (attribute, or a member more aligned than the record, or a vtable in a 1-aligned record)"],
         "assumptions": [
             "placement theorem (saw_field_with_layout post#4) region: not packed, not a union, clang reported the field offset (multiple of 8 bits, >= running offset, multiple of the field alignment), the Rust struct built so far ends at the tracker's running offset and that is a multiple of the previous field's alignment; the Rust type of the field has the alignment clang reports",
             "size theorem (pad_struct post#3) region: C size >= running offset and multiple of the C alignment <= 8, last field not a bit-field, packed only with alignment 1, and NOT (padding >= 8 emitted with alignment 8 from an offset/length that is not a multiple of 8) -- that sub-region is unverified (no real input known that reaches it)",
@@ -159,22 +165,24 @@ def c02(tier, seed):
             "CompInfo::codegen: the order of saw_* calls, repr/packed attribute selection (CompInfo::is_packed, already_packed), that returned padding tokens are emitted in place",
             "StructLayoutTracker::saw_field (array 'ultra hack', needs live IR), ::new",
             "packed structs, unions and fields after a bit-field unit are covered by invariant + safety only",
-            "raw_type's prefix/core/std selection (trusted to name the alias), Enum::codegen repr translation, CompInfo::is_packed (closure capturing &mut), the repr/packed/align attribute assembly inside CompInfo::codegen; C++ tail-padding reuse",
+            "raw_type's prefix/core/std selection (trusted to name the alias), Enum::codegen repr translation, the repr/packed/align attribute assembly inside CompInfo::codegen; C++ tail-padding reuse",
         ]})
 
 
 def c10(tier, seed):
     return _verus_prop("C10", tier, seed, [("layout", r"::(blob|Layout::known_type_for_size|Layout::for_size_internal|Layout::for_size|integer_type|bitfield_unit|Layout::new|align_to)::", None),
-                                           ("constrain", r"::CannotDerive::constrain_type::", None)], {
+                                           ("constrain", r"::CannotDerive::constrain_type::", None), ("blocklist", None, None)], {
         "trusted_base": LAYOUT_TRUST,
         "functions_under_contract": ["bindgen/codegen/helpers.rs: blob, integer_type, bitfield_unit", "bindgen/ir/layout.rs: Layout::{known_type_for_size, new, for_size_internal, for_size}",
+                                     "bindgen/ir/item.rs: Item::is_blocklisted",
                                      "bindgen/ir/analysis/derive.rs: CannotDerive::constrain_type (first rule: an item outside the allowlisted set gets exactly what blocklisted_type_implements_trait says, before any other rule)"],
         "assumptions": [
+            "blocklist test (Item::is_blocklisted == hidden || in a blocklisted file || generic item list || the list of its own kind || replaced type), with regex matching and path computation uninterpreted",
             "trait half: a blocklisted type derives a trait only as far as the user's callback vouches (constrain_type post#0), whatever else is true of it (opaque, excluded, ...)",
             "opaque-blob half of C10: for every Layout with size % max(align,1) == 0 (what libclang reports for a complete type) the emitted blob type has exactly that size and alignment (blob post#0-#2), on both the ffi_safe and the padding path",
         ],
         "unverified": [
-            "Item::is_blocklisted, IsOpaque, that opaque items stop tracing, the body of blocklisted_type_implements_trait (IR/regex-bound): 'never defined yet still named' is not decided",
+            "that every codegen entry point consults is_blocklisted (Item::process_before_codegen), IsOpaque, that opaque items stop tracing, the body of blocklisted_type_implements_trait (IR/regex-bound): 'never defined yet still named' is not decided",
         ]})
 
 
@@ -188,7 +196,7 @@ def _from_str_witnesses():
 
 def c12(tier, seed):
     units = [("layout", None, r"^(safety|decreases.*)$"), ("bf_alloc", None, r"^(safety|decreases.*)$"), ("macro_type", None, r"^safety$"),
-             ("edges", None, r"^safety$"), ("derive_gate", None, r"^safety$"), ("derives", None, r"^safety$"), ("fn_abi", None, r"^safety$"), ("constrain", None, r"^safety$"), ("prim_types", None, r"^safety$"), ("packed", None, r"^(safety|decreases.*)$")]
+             ("edges", None, r"^safety$"), ("derive_gate", None, r"^safety$"), ("derives", None, r"^safety$"), ("fn_abi", None, r"^safety$"), ("constrain", None, r"^safety$"), ("prim_types", None, r"^safety$"), ("packed", None, r"^(safety|decreases.*)$"), ("blocklist", None, r"^safety$")]
     return _verus_prop("C12", tier, seed, units, {
         "trusted_base": LAYOUT_TRUST + ["alloc::fmt::format stubbed in the from_str witness harnesses (message text irrelevant)"],
         "functions_under_contract": LAYOUT_FNS + ["bindgen/ir/comp.rs: bitfields_to_allocation_units (no-clang-offset mode)", "and the functions of units macro_type, edges, derive_gate, derives, fn_abi (see C05, C07-C09, C14)"],
